@@ -43,6 +43,7 @@ def run(chk):
     batcher.send_or_wait_outcomes(chk, P, "C08")
     batcher.callbacks_consumed(chk, P, "C08")
     batcher.worker_panics(chk, P, "C08")
+    batcher.workers_run_to_completion(chk, P, "C08")
     if not getattr(chk, "_overlay", None):
         common.results_inspected_rule(
             chk, P, "C08.R7:results-inspected", "no failure inside the channel machinery is silently dropped (a dropped outcome is how a worker "
